@@ -12,6 +12,8 @@ import (
 	"sync"
 	"sync/atomic"
 	"testing"
+	"time"
+	"verif/harness/watch"
 
 	"github.com/rs/zerolog"
 	"pgregory.net/rapid"
@@ -121,7 +123,22 @@ type inst struct {
 	triggered bool
 }
 
-func run(c *Case) (string, bool) {
+// run judges one history; a history during which a call into the writer never returns is judged through
+// package watch: the only goroutine using the writer waiting for a lock cannot be released by anybody.
+func run(c *Case) (msg string, nt bool) {
+	v := watch.Run(30*time.Second, "zerolog.(*TriggerLevelWriter)", func() { msg, nt = runHistory(c) })
+	switch {
+	case v.Done:
+		return msg, nt
+	case v.Blocked:
+		return fmt.Sprintf("a call on the TriggerLevelWriter never returns: the only goroutine using it waits in %s:\n%s", v.State, v.Stack), true
+	}
+	fmt.Println("VERIF-INCONCLUSIVE: a history took more than 30 s without being blocked on a lock")
+	os.Exit(2)
+	return "", false
+}
+
+func runHistory(c *Case) (string, bool) {
 	ninst := 1
 	for _, op := range c.Ops {
 		if op.I+1 > ninst {
